@@ -28,12 +28,13 @@ func DegeneracyOrdering(g graph.Undirected) (order []graph.Node, cores [][]graph
 
 // KCore returns the k-core of the undirected graph g with nodes in an
 // optimal ordering for the coloring number. The k-core is empty when k
-// is greater than the degeneracy of g.
+// is greater than the degeneracy of g, and holds all nodes of g when
+// k is not positive.
 func KCore(k int, g graph.Undirected) []graph.Node {
 	order, offsets := degeneracyOrdering(g)
 
 	var offset int
-	for _, n := range offsets[:min(k, len(offsets))] {
+	for _, n := range offsets[:min(max(k, 0), len(offsets))] {
 		offset += n
 	}
 	core := make([]graph.Node, len(order)-offset)
